@@ -138,6 +138,39 @@ def run_history(ctx, cfg, ops, viol, world, track=True):
     return True
 
 
+def macro_history(rng, cfg):
+    """Goal-directed histories: trip the circuit, wait, probe, settle the probe, fail again - the
+    episodes in which stale history (not cleared on open/close) or a stale opening instant would show."""
+    w, r, th = cfg["window"], cfg["recovery"], cfg["threshold"]
+    ops = []
+    for _ in range(rng.randint(2, 5)):
+        k = rng.choice(["TRANSIENT", "SERVER_ERROR"])
+        # trip (or nearly trip)
+        n = th if rng.random() < 0.8 else th - 1
+        if cfg.get("class_threshold") and k == "SERVER_ERROR":
+            n = min(n, cfg["class_threshold"]) if rng.random() < 0.7 else n
+        for _i in range(max(n, 0)):
+            ops.append(("fail", k if rng.random() < 0.8 else rng.choice(["TRANSIENT", "SERVER_ERROR"])))
+            if rng.random() < 0.3:
+                ops.append(("adv", rng.choice([G, w / 2, 0.0])))
+        ops.append(("adv", rng.choice([r, r + G, r - G, r + G, 2 * r])))
+        ops.append(("allow",))
+        if rng.random() < 0.3:
+            ops.append(("allow",))
+        ops.append(rng.choice([("success",), ("success",), ("fail", k), ("cancel",)]))
+        if rng.random() < 0.5:
+            ops.append(("allow",))
+        # now a few failures shortly after: stale history would open too early
+        for _i in range(rng.randint(0, th)):
+            ops.append(("fail", rng.choice(["TRANSIENT", "SERVER_ERROR", "PERMANENT"])))
+            if rng.random() < 0.3:
+                ops.append(("adv", rng.choice([G, w - G, w, w + G])))
+        if rng.random() < 0.4:
+            ops.append(("adv", rng.choice([r - G, r, r + G, w + G])))
+            ops.append(("allow",))
+    return ops
+
+
 def work(ctx, tier):
     rng = common.rng_for(ctx, "main")
     world = env.World()
@@ -175,6 +208,14 @@ def work(ctx, tier):
             ctx.cnt["random_histories"] += 1
             if k < 2 and ctx.shard == 0:
                 ctx.sample({"config": cfg, "ops": [list(o) for o in ops[:25]]})
+        m = (6000 if tier == "quick" else 200000) // ctx.nshards
+        for k in range(m):
+            cfg = dict(rng.choice(CONFIGS))
+            ops = macro_history(rng, cfg)
+            run_history(ctx, cfg, ops, viol, world)
+            ctx.cnt["macro_histories"] += 1
+            if k < 1 and ctx.shard == 0:
+                ctx.sample({"config": cfg, "macro_ops": [list(o) for o in ops[:30]]})
     ctx.cnt["clock_reads"] += world.hits["mono"]
 
 
@@ -195,7 +236,7 @@ def conclude(ctx):
         rule=(
             f"bounded-exhaustive: every history of length <= {L} over {{allow, record_success, record_failure(TRANSIENT|SERVER_ERROR|PERMANENT), record_cancel, advance d}} with d from "
             "{step, w/2, w-step, w, w+step, r-step, r, r+step} for 30 configurations (threshold 1-3, class threshold absent/1/2/3, window <,=,> recovery) + random 60-step histories over wider "
-            "configurations; every step is one comparison of the real CircuitBreaker's observable result with the shadow model's allowed set; distinct_nontrivial = distinct abstract model states "
+            "configurations + goal-directed episode histories (trip, wait around the timeout, probe, settle, fail again); every step is one comparison of the real CircuitBreaker's observable result with the shadow model's allowed set; distinct_nontrivial = distinct abstract model states "
             "(mode, live failures, boundary failures, probe flag, age relation) + distinct transitions between them"
         ),
         evaluations=ctx.cnt["steps"],
